@@ -143,12 +143,15 @@ def tiers(tier):
                 ('group-edited', Scenario('group-edited', modes=MODES, n_states=1, roi=False, names=('d1',)), 4),
                 ('session-new-mode', Scenario('group-edited', modes=['AndMode'], n_states=1, names=('d1',),
                                               session_mode='NewMode'), 4),
+                # tiny alphabet, deep: several levels of undo followed by redo and undo again
+                ('deep-undo-redo', Scenario('empty', modes=[], n_states=2, roi=False, names=()), 8),
                 ('max-undo-2', Scenario('group-not-edited', modes=['OrMode'], n_states=1, roi=False,
                                         max_undo=2, names=('d1',)), 6)]
     return [('empty', Scenario('empty', modes=MODES, n_states=1), 5),
             ('empty-two-states', Scenario('empty', modes=few, n_states=2), 5),
             ('group-edited', Scenario('group-edited', modes=MODES, n_states=1), 5),
             ('group-not-edited', Scenario('group-not-edited', modes=few, n_states=1), 6),
+            ('deep-undo-redo', Scenario('empty', modes=['NewMode'], n_states=1, roi=True, names=()), 8),
             ('session-new-mode', Scenario('group-edited', modes=few, n_states=1, session_mode='NewMode'), 5),
             ('session-xor-mode', Scenario('empty', modes=['NewMode'], n_states=2, session_mode='XorMode'), 5),
             ('max-undo-2', Scenario('group-not-edited', modes=['OrMode', 'NewMode'], n_states=1, roi=False,
@@ -183,7 +186,10 @@ def run(tier):
     total = core.Result()
     cov = dict(states=0, transitions=0, traces_validated_against_impl=0, runs=[])
     for label, scn, depth in tiers(tier):
-        ex = hist.Explorer(scn, depth, PROP, label=label)
+        # the deep scenario runs WITHOUT de-duplication: command objects carry private records (what they
+        # saw when first done) that the canonical form cannot see, so histories that re-converge on the same
+        # visible state are still all extended
+        ex = hist.Explorer(scn, depth, PROP, label=label, dedup=not label.startswith('deep'))
         total.merge(ex.run())
         c = ex.coverage()
         for k in ('states', 'transitions', 'traces_validated_against_impl'):
